@@ -5,7 +5,7 @@
 (* record these return, so a new family is a new operator here and nothing *)
 (* else.  P is the name prefix that keeps packed cases apart.              *)
 (***************************************************************************)
-EXTENDS SebufSchema
+EXTENDS SebufSchema, SequencesExt
 
 Pkg(P)   == P \o ".v1"
 GoPkg(P) == "scratch/gen/" \o P \o ";" \o P
@@ -371,4 +371,51 @@ C13ShapeCase(P, sh) ==
                 <<Method("GetHTTPStatus", FN(P, "W"), FN(P, "Out"), TRUE, Parts(TRUE, <<Lit("s")>>, FALSE), "GET"),
                   Method("GetV2Item", FN(P, "W"), FN(P, "Out"), FALSE, NoParts, ""),
                   Method("get_lower", FN(P, "W"), FN(P, "Out"), TRUE, Parts(TRUE, <<Lit("l")>>, FALSE), "DELETE")>>)
+
+(***************************************************************************)
+(* C03: one service per (base_path, package naming) carrying every method  *)
+(* configuration x path shape x verb x method-name shape.                  *)
+(***************************************************************************)
+Bases == {"none", "slash_api", "api", "slash_api_slash", "api_v1", "root"}
+BaseParts(b) == CASE b = "none" -> NoParts [] b = "slash_api" -> Parts(TRUE, <<Lit("api")>>, FALSE)
+                  [] b = "api" -> Parts(FALSE, <<Lit("api")>>, FALSE) [] b = "slash_api_slash" -> Parts(TRUE, <<Lit("api")>>, TRUE)
+                  [] b = "api_v1" -> Parts(TRUE, <<Lit("api"), Lit("v1")>>, FALSE) [] b = "root" -> Parts(TRUE, <<>>, FALSE)
+LitShapes == {"lit", "nolead", "lit_var", "var_lit", "deep"}
+ShapeParts(sh, n) ==
+  CASE sh = "lit" -> Parts(TRUE, <<Lit(n)>>, FALSE) [] sh = "nolead" -> Parts(FALSE, <<Lit(n)>>, FALSE)
+    [] sh = "trail" -> Parts(TRUE, <<Lit(n)>>, TRUE) [] sh = "lit_var" -> Parts(TRUE, <<Lit(n), Var("a")>>, FALSE)
+    [] sh = "var_lit" -> Parts(TRUE, <<Var("a"), Lit(n), Lit("z")>>, FALSE)
+    [] sh = "deep" -> Parts(TRUE, <<Lit(n), Var("a"), Lit("y"), Var("b"), Var("c")>>, FALSE)
+    [] sh = "var" -> Parts(TRUE, <<Var("a")>>, FALSE) [] sh = "var_var" -> Parts(TRUE, <<Var("a"), Var("b")>>, FALSE)
+ShapeVars(sh) == CASE sh \in {"lit_var", "var_lit", "var"} -> <<"a">> [] sh = "deep" -> <<"a", "b", "c">>
+                   [] sh = "var_var" -> <<"a", "b">> [] OTHER -> <<>>
+RealVerbs == {"GET", "POST", "PUT", "DELETE", "PATCH"}
+NameShapes == {"Get", "GetUser", "GetHTTPStatus", "GetV2Item"}
+VerbCamel(v) == CASE v = "GET" -> "Get" [] v = "POST" -> "Post" [] v = "PUT" -> "Put" [] v = "DELETE" -> "Delete" [] v = "PATCH" -> "Patch"
+\* method descriptors: [cfg, shape, verb, name]
+C03Descs ==
+     {[cfg |-> "both", shape |-> sh, verb |-> v, name |-> "B" \o sh \o VerbCamel(v)] : sh \in LitShapes, v \in RealVerbs}
+  \cup {[cfg |-> "both", shape |-> "var", verb |-> "GET", name |-> "Bvar"], [cfg |-> "both", shape |-> "var_var", verb |-> "PUT", name |-> "Bvarvar"]}
+  \cup {[cfg |-> "path", shape |-> sh, verb |-> "", name |-> "P" \o sh] : sh \in LitShapes}
+  \cup {[cfg |-> "verb", shape |-> "", verb |-> v, name |-> n \o "Via" \o VerbCamel(v)] : n \in NameShapes, v \in RealVerbs}
+  \cup {[cfg |-> "absent", shape |-> "", verb |-> "", name |-> n] : n \in NameShapes}
+C03Req(P, d) ==
+  LET v == IF d.verb = "" THEN "POST" ELSE d.verb
+      vars == IF d.cfg \in {"both", "path"} THEN ShapeVars(d.shape) ELSE <<>>
+      pf == [i \in 1..Len(vars) |-> F(vars[i], vars[i], i, "string", "one")]
+      q  == <<Ann(F("q", "q", Len(vars) + 1, "string", "one"), "query", TRUE)>>
+      b  == IF v \in {"POST", "PUT", "PATCH"} THEN <<F("d", "d", Len(vars) + 2, "string", "one")>> ELSE <<>>
+  IN Msg("Rq" \o d.name, FN(P, "Rq" \o d.name), pf \o q \o b)
+C03Method(P, d) ==
+  Method(d.name, FN(P, "Rq" \o d.name), FN(P, "Out"), d.cfg # "absent",
+         IF d.cfg \in {"both", "path"} THEN ShapeParts(d.shape, d.name) ELSE NoParts, d.verb)
+C03Case(P, base, pkgDiff) ==
+  LET ds == SetToSeq(C03Descs)
+      pkg == IF pkgDiff THEN Pkg(P) ELSE P
+      full(n) == pkg \o "." \o n
+      rq(d) == [C03Req(P, d) EXCEPT !.full = full("Rq" \o d.name)]
+      me(d) == [C03Method(P, d) EXCEPT !.in = full("Rq" \o d.name), !.out = full("Out")]
+  IN Schema(<<File(P \o "/svc.proto", pkg, GoPkg(P), TRUE, <<>>,
+                   <<Service("Svc", base # "none", BaseParts(base), [i \in 1..Len(ds) |-> me(ds[i])])>>,
+                   <<[Out(P) EXCEPT !.full = full("Out")]>> \o [i \in 1..Len(ds) |-> rq(ds[i])], <<>>)>>)
 =============================================================================
